@@ -890,7 +890,8 @@ fn gen_par(rng: &mut Rng, nthreads: usize, thorough: bool) -> ParCase {
 /// `failed`: the threads that failed in the run the request describes (empty for a clean run).
 /// Their requests are left out of the schedule - how far a failed thread got is not observable -
 /// and the driver masks what the failure leaves undetermined (GluonModel.ParOnce.undetermined).
-fn par_request(case: &ParCase, rng: &mut Rng, failed: &[usize]) -> String {
+/// `lost`: the child process hung or died (every thread counts as failed, no count was observed).
+fn par_request(case: &ParCase, rng: &mut Rng, failed: &[usize], lost: bool) -> String {
     let mut s = String::from("par (mods");
     for m in &case.modules {
         s.push_str(&format!(" ({}", m.c));
@@ -912,7 +913,9 @@ fn par_request(case: &ParCase, rng: &mut Rng, failed: &[usize]) -> String {
         }
         s.push_str(&format!(") {} {} {})", p.alloc, p.reps, role));
     }
-    if !failed.is_empty() {
+    if lost {
+        s.push_str(") (lost");
+    } else if !failed.is_empty() {
         s.push_str(") (failed");
         for t in failed {
             s.push_str(&format!(" {}", t));
@@ -1008,7 +1011,8 @@ struct ParRun {
 
 /// What a failing run leaves determined, in the form the driver prints for a request with a
 /// `(failed …)` list: results of failed threads are `(failed)`; the count of a module that only
-/// failed threads requested is `?` (0 or 1: the thread may or may not have got that far).
+/// failed threads requested is `?` (0 or 1: the thread may or may not have got that far); if the child
+/// process hung or died no count was observed and all are `?` (request with `(lost)`).
 fn masked_payload(case: &ParCase, r: &ParRun) -> String {
     let mut ok_req = vec![false; case.modules.len()];
     let mut failed_req = vec![false; case.modules.len()];
@@ -1201,7 +1205,7 @@ fn class_fingerprint(case: &ParCase, detail: &str) -> String {
 fn run_par(out: &mut Out, case: &ParCase, rng: &mut Rng, timeout: Duration) {
     let cj = case.to_json();
     let rng0 = rng.clone();
-    let req = par_request(case, rng, &[]);
+    let req = par_request(case, rng, &[], false);
     let n = case.progs.len();
     out.count(&format!("threads:{}", n));
     out.count(&format!("modules:{}", case.modules.len()));
@@ -1250,7 +1254,7 @@ fn run_par(out: &mut Out, case: &ParCase, rng: &mut Rng, timeout: Duration) {
         out.count("par-compared:no-clean-run(surviving-threads-only)");
         out.add("par-threads-not-compared", r.failed.len() as u64);
         let mut rng1 = rng0;
-        (par_request(case, &mut rng1, &r.failed), masked_payload(case, &r))
+        (par_request(case, &mut rng1, &r.failed, r.counts.is_none()), masked_payload(case, &r))
     };
     if out.n_cases % 9 == 2 {
         out.sample(json!({"case": cj, "impl": payload}));
